@@ -9,12 +9,12 @@ def check(id, cat, text, note, technique, ref):
 
 T_AST = "custom static analyser over go/packages + go/types ASTs: "
 check("C01", "other", "Necessary structural conditions of the accepted grammar, checked on every return site, table and path of the four parsers; does not decide the scanner loops.",
-      "That the hand-written scanners hand exactly the '/'-separated elements to the cursor logic is NOT proved (DESIGN §10, AS-BUILT 43): it is only tabulated on a bounded family of inputs (R01.scan: canonical vectors with a bad element at every position, evaluated by the checker's fragment evaluator — closer to a table-driven test than to static analysis, no floor, no verdict where the evaluator cannot run the parser); their index and slice expressions on the input text ARE proved in range (R01.bounds: zone-domain abstract interpretation with widening, partitioned on the sign of a sentinel index). Vocabulary oracle transcribed from the specifications.",
+      "That the hand-written scanners hand exactly the '/'-separated elements to the cursor logic is NOT proved (DESIGN §10, AS-BUILT 43): it is only tabulated on a bounded family of inputs (R01.scan: canonical vectors with a bad element at every position, evaluated by the checker's fragment evaluator — closer to a table-driven test than to static analysis, no floor, no verdict where the evaluator cannot run the parser); their index and slice expressions on the input text ARE proved in range (R01.bounds: zone-domain abstract interpretation with widening, partitioned on the sign of a sentinel index, labelled loops, offsets relative to a cursor). The v2.0 part splitter is decided by its recognised counting-loop shape, otherwise by a bounded tabulation of its contract (splitsem.go). Vocabulary oracle transcribed from the specifications.",
       T_AST + "return-site census; go/cfg path rules; abstract interpretation in the zone domain (difference-bound matrices, widening) proving every index/slice expression on input text in range; cursor logic of the fixed-order parsers tabulated into a finite automaton and compared with the specification's order automaton by a product walk (acceptance, error kinds, Set called on every consumed element); v3 defined-once / missing-metric logic interpreted symbolically over flags or bit sets for every subset of metrics; vocabulary tables compared with the specification", "DESIGN §5 C01, AS-BUILT 14, 22-23, 27, 38")
 check("C02", "other", "Round trip reduced to proved layout facts (C07) plus serializer/parser table agreement; decided for every metric and value.",
       "The parser loop accepting the emitted string is shared with C01 and not decided.", T_AST + "symbolic interpretation of Vector over the strings Get prints (helpers inlined, constant-table loops unrolled, branches merged, receiver-bit tests lifted to Get strings) giving the exact shape of the output; Set/Get layout models (syntactic, or read off runs of Set on a symbolic receiver); one direction of the parser automaton comparison (accepts everything Vector writes); the length of the returned string is len(buffer) or a sizing value proved equal to the bytes written for every object (R02.strlen)", "DESIGN §5 C02, AS-BUILT 20, 24, 31-34, 44")
 check("C03", "other", "The code evaluates the specification's expressions with the specification's constants on the right inputs (canonical formula trees, weight tables, byte routing = oracle) AND every rounding step/comparison is farther from its discontinuity than any float64 evaluation error, for every metric combination — so the returned one-decimal values are exactly the specification's.",
-      "Trusted: IEEE-754 binary64 round-to-nearest error model stated in checker/floatsafe.go; EnvironmentalScore float64-stability (3.36 M combinations per version) is re-derived in the thorough tier only.", T_AST + "symbolic evaluation of loop-free methods into canonical formula trees (exact rational literals), known-bits routing of every byte read, weight tables by exhaustive evaluation of the helper switches", "DESIGN §5 C03")
+      "Trusted: IEEE-754 binary64 round-to-nearest error model stated in checker/floatsafe.go; EnvironmentalScore float64-stability (3.36 M combinations per version) is re-derived in the thorough tier only.", T_AST + "symbolic evaluation of loop-free methods into canonical formula trees (exact rational literals), known-bits routing of every byte read, weight tables by exhaustive evaluation of the helper switches; a Roundup helper that is not the specification's algorithm verbatim is decided by decomposition over the integer it works on (agreement on every integer of the domain, interval analysis of all call sites: roundsem.go)", "DESIGN §5 C03, AS-BUILT 45")
 check("C04", "other", "Every table, predicate, guard and per-EQ term of the MacroVector algorithm equals the specification; EQ predicates and next-lower logic by complete finite tabulation.",
       "Exact x.x5 tie classes (2 887 of 52 650) are not decided. Lookup oracle is a second-hand copy of FIRST's table (claircore).", T_AST + "complete truth tables of loop-free fragments over metric codes (M7), table extraction, template matching of the interpolation def-use chain", "DESIGN §5 C04")
 check("C05", "other", "As C03 for the v2.0 equations.", "Combinations within the float64 error bound of an exact half-way case are counted, not decided (the property leaves half-way cases open).", T_AST + "canonical formula trees, weight tables, known-bits routing", "DESIGN §5 C05")
@@ -32,18 +32,18 @@ check("C11", "other", "Every score return is rounded or 0, rounding bodies end i
       "Numeric range of the v2 arithmetic not decided.", T_AST + "return-leaf analysis of the canonical trees, table checks, threshold partition of Rating", "DESIGN §5 C11")
 check("C12", "other", "Exhaustive exact-rational monotonicity: v2/v3 canonical formula trees over all value combinations (R12.real); v4 score model over 4.9 M single-metric steps x (level, distance) classes (R12.v4real); plus lookup edges, severity orders, weight tables.",
       "Decided for the real-valued model of all versions; float64 rounding is covered by C03/C04 rules for v3/v4; v2 half-way ties are inherently open. v3.1 EnvironmentalScore over all E/RL/RC values in the thorough tier only.", T_AST + "order checks over extracted tables against the specification severity orders", "DESIGN §5 C12")
-check("C13", "other", "Headers pairwise prefix-incomparable and equal to the specification; header guard is the first statement; v2 starts at 'AV'.",
-      "v2 clause relies on C01's loop.", T_AST + "constant comparison and guard-shape/dominance check", "DESIGN §5 C13")
+check("C13", "other", "Headers pairwise prefix-incomparable and equal to the specification; header guard is the first statement; v2 starts at 'AV'. The clause 'Vector() output is accepted by its own parser' is decided by C02's rule set, which this check also runs.",
+      "v2 clause relies on C01's loop; that the parser loop accepts the emitted string is shared with C01/C02.", T_AST + "constant comparison and guard-shape/dominance check; C02's serializer/parser table agreement and string-length rule", "DESIGN §5 C13")
 check("C14", "other", "Effect analysis: no writes to package-level state, only Set writes through *T, pool typestate, private buffer, concurrency census.",
-      "Go memory model and sync.Pool contract trusted.", "SSA-based effect and typestate analysis (go/ssa): stores rooted at globals or *T parameters on paths of the documented read-only API, taint of the pooled value; provenance of Vector's returned bytes followed to a make in the same call by symbolic interpretation (append-only helper discipline otherwise)", "DESIGN §5 C14, AS-BUILT 21, 36")
+      "Go memory model and sync.Pool contract trusted.", "SSA-based effect and typestate analysis (go/ssa): stores rooted at globals or *T parameters on paths of the documented read-only API, taint of the pooled value; provenance of Vector's returned bytes followed to a make in the same call by symbolic interpretation (append-only helper discipline otherwise); thin wrappers around the pool are inlined at source level first; the splitter writes every slot it reports (shape, or bounded tabulation of its contract) and the caller's reslice follows its return convention", "DESIGN §5 C14, AS-BUILT 21, 36, 46")
 check("C15", "proof", "Complete for every non-NaN float64: threshold partition into 13 regions per package, decision list evaluated per region, three packages identical.",
       "NaN unspecified. Trusted: constants are read through go/types as float64 values.", T_AST + "region (threshold-partition) analysis of a comparison-only decision list", "DESIGN §5 C15")
 check("C16", "proof", "Complete: all byte reads are whole-field definedness predicates; 2^15 definedness combinations enumerated against CVSS-B[T][E].",
       "Relies on C07's layout (premises R07.store/R07.preserve for v4 included).", T_AST + "tested-bit-set analysis (including bit locals and OR-ed bytes) plus exhaustive finite enumeration over definedness", "DESIGN §5 C16")
 check("C17", "other", "Compiler escape census with every heap site classified and budgeted; lenVec >= emitted length for every object; no allocating construct or non-allow-listed callee on API paths.",
       "Decided for the installed toolchains only (go1.23.5 quick; plus go1.26.8 thorough); pool steady state trusted.", "compiler escape analysis (-gcflags=-m) parsed and classified against the AST, exhaustive per-component comparison of lenVec with the serializer table, construct/callee census", "DESIGN §5 C17")
-check("C18", "other", "Census of every error-producing site with its guard kind and documented error value; which values are illegal and which abbreviations unknown is the specification vocabulary (R09.values/R09.labels); the abbreviation a typed error names is the element's part before its first ':' (R06.cut).",
-      "Two sites observed, not asserted (DESIGN §9 O1/O2).", T_AST + "error value of every rejected transition of the cursor automaton (v2/v4) and of every subset of missing / repeated / unknown metrics in the symbolic defined-once model (v3); return-site census with guard classification; typed-error construction and sentinel census", "DESIGN §5 C18, AS-BUILT 23, 27")
+check("C18", "other", "Census of every error-producing site with its guard kind and documented error value; which values are illegal and which abbreviations unknown is the specification vocabulary (R09.values/R09.labels); the abbreviation a typed error names is the element's part before its first ':' (R06.cut); that every element, a trailing empty one included, reaches the error-producing dispatch is tabulated on a bounded family of inputs (R01.scan, labelled bounded, not static).",
+      "Two sites observed, not asserted (DESIGN §9 O1/O2); the scanners are tabulated, not proved (R01.scan).", T_AST + "error value of every rejected transition of the cursor automaton (v2/v4) and of every subset of missing / repeated / unknown metrics in the symbolic defined-once model (v3); return-site census with guard classification; typed-error construction and sentinel census", "DESIGN §5 C18, AS-BUILT 23, 27")
 
 NOT_YET = {}
 for i in IDS:
@@ -56,7 +56,7 @@ m = {
  "hooks": {"guard": "verif", "enable": "none needed: the checks read /repo's source; no build tag is consulted", "baseline_off_cmd": BASE_OFF, "source_commits": [], "add_only": True},
  "engines": [{"name": "cvsscheck", "path": "/verif/checker", "serves_properties": sorted(CHECKS), "kind_free_text": "repository-specific static analyser (Go; go/packages, go/types, go/cfg, go/ssa from vendored x/tools v0.29.0)"}],
  "checks": [],
- "notes": "All checks are static: they parse and type-check /repo's current working tree on every run and never execute repository code. See DESIGN.md.",
+ "notes": "All checks parse and type-check /repo's current working tree on every run; repository code is never compiled and run. Besides pattern, dataflow and abstract-interpretation rules the analyser contains its own evaluators (DESIGN section 0): complete tabulation of loop-free fragments over finite enum domains, symbolic interpretation of whole functions on a symbolic receiver, and three BOUNDED tabulations over concrete strings that are not static analysis and are labelled so in every verdict (R01.scan, the fallback of R06.cut, the part-splitter contract of splitsem.go); they are supplementary and never the only basis of a 'proof'-level claim.",
  "not_applicable": [{"property_id": k, "reason": v} for k, v in sorted(NOT_YET.items())],
 }
 for id in sorted(CHECKS):
